@@ -6,7 +6,8 @@ import os, random, yaml
 
 BASE_LAT, BASE_LON = 39.7539, -104.9740
 
-def write(directory, seed, delta=None):
+def write(directory, seed, delta=None, start=0):
+    """`start`: the simulation's start time (seconds); every time in the input files is shifted by it, so a run can cross UTC midnight"""
     rng = random.Random(seed)
     os.makedirs(directory, exist_ok=True)
     delta0 = rng.choice([30, 60, 60, 90])
@@ -48,15 +49,22 @@ def write(directory, seed, delta=None):
             (ola, olo), (dla, dlo) = cell(rng.randint(0, 4), rng.randint(0, 4)), cell(rng.randint(0, 4), rng.randint(0, 4))
             reqs.append((k, ola, olo, dla, dlo, t, rng.randint(1, 2), rng.choice(fleets) if fleets else None)); k += 1
         t += rng.choice([0, delta // 2, delta, 2 * delta, 5 * delta])
+    if start and (86400 - start % 86400) < horizon:
+        # a burst of requests departing just before UTC midnight, at every distance: some are picked up the next day
+        tm = 86400 - start % 86400
+        for dt_ in (1, delta // 2, delta, delta + 1, 2 * delta, 1, delta):
+            (ola, olo), (dla, dlo) = cell(rng.randint(0, 4), rng.randint(0, 4)), cell(rng.randint(0, 4), rng.randint(0, 4))
+            reqs.append((k, ola, olo, dla, dlo, max(0, tm - dt_), 1, rng.choice(fleets) if fleets else None)); k += 1
+        reqs.sort(key=lambda r: r[5])
     # shifts that begin / end on step boundaries early in the run, one wrapping past midnight, one empty
     def hms(t):
-        t %= 86400
+        t = (t + start) % 86400
         return f'{t // 3600:02d}:{(t % 3600) // 60:02d}:{t % 60:02d}'
     with open(os.path.join(directory, 'schedules.csv'), 'w') as f:
         f.write('schedule_id,start_time,end_time\n')
         f.write(f'sa,"{hms(0)}","{hms(rng.randint(8, 30) * delta)}"\n')
         f.write(f'sb,"{hms(rng.randint(5, 15) * delta)}","{hms(rng.randint(20, 50) * delta)}"\n')
-        f.write(f'sc,"{hms(86400 - 3600)}","{hms(rng.randint(10, 40) * delta)}"\n')
+        f.write(f'sc,"{hms(86400 - 3600 - start)}","{hms(rng.randint(10, 40) * delta)}"\n')
         f.write(f'sd,"{hms(7 * delta)}","{hms(7 * delta)}"\n')
     with open(os.path.join(directory, 'vehicles.csv'), 'w') as f:
         f.write('vehicle_id,lat,lon,mechatronics_id,initial_soc,schedule_id,home_base_id\n')
@@ -73,6 +81,7 @@ def write(directory, seed, delta=None):
     with open(os.path.join(directory, 'requests.csv'), 'w') as f:
         f.write('request_id,o_lat,o_lon,d_lat,d_lon,departure_time,passengers' + (',fleet_id' if fleets else '') + '\n')
         for r in reqs:
+            r = r[:5] + (r[5] + start,) + r[6:]
             f.write(','.join(str(x) for x in r[:7]) + (f',{r[7]}' if fleets else '') + '\n')
     import h3
     with open(os.path.join(directory, 'prices.csv'), 'w') as f:
@@ -82,9 +91,9 @@ def write(directory, seed, delta=None):
         for tt in (0, 20 * delta, 45 * delta):
             for res in (6, 9):
                 for charger in ('DCFC', 'LEVEL_2'):
-                    f.write(f'{tt},{h3.h3_to_parent(g15, res)},{charger},{rng.choice([0.1, 0.2, 0.35])}\n')
+                    f.write(f'{tt + start},{h3.h3_to_parent(g15, res)},{charger},{rng.choice([0.1, 0.2, 0.35])}\n')
     cfg = {'sim': {'sim_name': os.path.basename(directory), 'timestep_duration_seconds': delta, 'request_cancel_time_seconds': 600,
-                   'start_time': 0, 'end_time': horizon},
+                   'start_time': start, 'end_time': start + horizon},
            'network': {'network_type': 'euclidean'},
            'input': {'vehicles_file': 'vehicles.csv', 'requests_file': 'requests.csv', 'bases_file': 'bases.csv', 'stations_file': 'stations.csv',
                      'charging_price_file': 'prices.csv', 'schedules_file': 'schedules.csv'},
